@@ -4,7 +4,8 @@ import os
 from . import build as B
 from . import enumgen
 
-WRAP_TIME = ["lrtr_get_monotonic_time", "sleep"]
+WRAP_SIM = ["lrtr_get_monotonic_time", "sleep", "lrtr_dbg"]
+SIM_SRCS = ["rtrsim.c", "common/sim_data.c", "common/sim_tr.c", "common/sim_cache.c", "common/sim_mon.c"]
 
 
 def T(quick, thorough):
@@ -62,3 +63,171 @@ def c20():
 
 
 SPECS = {"C19": c19, "C20": c20}
+
+
+# ------------------------------------------------------------------------------ rtrsim-based properties
+def _sim_build(cfg="asan"):
+    return dict(name="rtrsim", config=cfg, harness=SIM_SRCS, wraps=WRAP_SIM)
+
+
+def _sim_run(mode, quick, thorough, cfg="asan", name=None, timeout=1500):
+    return dict(name=name or (mode if cfg == "asan" else mode + "-" + cfg), bin="rtrsim", config=cfg, mode=mode,
+                cases=T(quick, thorough), timeout=timeout, chunks=64)
+
+
+SIM_ASSUME = ["the mock transport honours the tr_socket contract (positive byte counts or a tr_rtvals error, never 0)",
+              "virtual clock: lrtr_get_monotonic_time and sleep are wrapped at link time; no wall-clock verdicts",
+              "the simulated cache and the reference verdict on its responses (harness/common/sim_cache.c) follow RFC 8210",
+              "ASan/UBSan blind spots (non-adjacent overflows, recycled frees)"]
+
+SIM_RULE_COMMON = ("Real FSM thread (rtr_start) against a scripted RFC 8210 cache behind a mock transport and a virtual clock; "
+                   "every scenario is a deterministic function of (seed, case). Scenario families: conv = random conversations "
+                   "(per-query defects / overrides, transport faults by call index, timed data changes, notifies, cache restarts); "
+                   "defect = defect class x position class {CR, first, middle, last, EOD, random} x response kind {first sync, "
+                   "delta, reload after Cache Reset}; faults = a base conversation is dry-run to count its transport calls, then "
+                   "one fault kind {ERROR, WOULDBLOCK, INTR, CLOSED} at every call position, then random 2..6-fault schedules; "
+                   "expiry = outage of E-1..E+3, E+retry, 3E seconds through 7 failure modes; stops = rtr_stop at the k-th "
+                   "cancellation point, restart, converge; version = version-0 caches of 3 behaviours, foreign version bytes, late "
+                   "downgrades; intervals = End of Data boundary triples x 4 modes; reload = forced reloads with overlapping sets. ")
+
+
+def c03():
+    return dict(
+        id="C03", level="fault_enumeration", engine="rtrsim",
+        builds=[_sim_build()],
+        runs=[_sim_run("defect", 7200, 108000), _sim_run("conv", 2500, 60000), _sim_run("faults", 3072, 61440),
+              _sim_run("reload", 400, 8000)],
+        floors={"c03/exchanges_judged_success": T(50000, 500000), "c03/exchanges_judged_failure": T(5000, 50000),
+                "sim/other_source_checks": T(50000, 500000)},
+        rule=(SIM_RULE_COMMON + "Oracle per exchange: snapshot B of the socket's records (both tables, by source) when the query "
+              "is sent; a reference validator walks the response bytes as emitted and decides well-formedness and apply(B,R) "
+              "sequentially per record identity. Client went ESTABLISHED: response must be valid, records == apply(B,R), stored "
+              "session/serial == End of Data's. Otherwise (judged at the next query / open / stop): records == B and the next query "
+              "is the previous one, or records are all gone and the next query is a Reset Query. Records of two other sources that "
+              "overlap the cache's data must never change. Non-trivial = a judged exchange; distinct by hash of (B, result, defect, "
+              "position) plus the state-trace hash of every scenario."),
+        assumptions=SIM_ASSUME,
+    )
+
+
+def c05():
+    return dict(
+        id="C05", level="exploration", engine="rtrsim",
+        builds=[_sim_build()],
+        runs=[_sim_run("conv", 4000, 80000), _sim_run("stops", 1200, 24000), _sim_run("faults", 2048, 40960),
+              _sim_run("defect", 1800, 21600)],
+        floors={"c05/queries_checked": T(100000, 1000000), "c05/reset_event/cache-reset": T(200, 2000),
+                "c05/reset_event/stop-start": T(500, 5000), "c05/boundary_serials_in_queries": T(20, 200)},
+        rule=(SIM_RULE_COMMON + "Online trace monitor on the wire: expect = RESET initially; after the client's own ESTABLISHED "
+              "transition on a valid response expect = SERIAL(session, serial of End of Data); Cache Reset delivered, no-data Error "
+              "Report delivered, a connect later than the expire interval, stop/start and a purge after a failed exchange make it "
+              "RESET; every query must equal expect exactly. Responses whose Cache Response / End of Data carry a foreign session "
+              "must fail and leave the records unchanged. Serials include 0, 2^31+-1, 2^32-1 and wrap-around. After a transport "
+              "fault on a connection the consequences of PDUs the client may not have framed become permitted instead of demanded. "
+              "Non-trivial = judged exchange / scenario trace; distinct by hash."),
+        assumptions=SIM_ASSUME,
+    )
+
+
+def c07():
+    return dict(
+        id="C07", level="fault_enumeration", engine="rtrsim",
+        builds=[_sim_build()],
+        runs=[_sim_run("expiry", 2940, 58800), _sim_run("stops", 1600, 32000), _sim_run("conv", 800, 16000)],
+        floors={"c07/open_checks_past_expiry": T(2000, 40000), "c07/stop_checks": T(5000, 100000),
+                "c07/first_query_after_expiry_checks": T(500, 10000)},
+        rule=(SIM_RULE_COMMON + "Monitor: t_ok = virtual time of the last ESTABLISHED transition on a valid response; at every "
+              "transport open() with now - t_ok > the socket's expire interval (read from struct rtr_socket at that moment) the "
+              "socket's records in both tables must be gone and the first query of that connection must be a Reset Query; after "
+              "every rtr_stop (issued at the k-th cancellation point: mid-response, established wait, retry sleep) no record of "
+              "the socket remains; records of the two other sources are compared at each of these points. expiry cases enumerate "
+              "7 durations x 7 failure modes (open fails, send fails, silence, fatal report, no-data report, Cache Reset + "
+              "truncated reload, Cache Reset + defective reload) with small retry intervals so that connects fall on every "
+              "second around the boundary. Distinct by scenario trace hash."),
+        assumptions=SIM_ASSUME,
+    )
+
+
+def c08():
+    return dict(
+        id="C08", level="fault_enumeration", engine="rtrsim",
+        builds=[_sim_build()],
+        runs=[_sim_run("faults", 6144, 122880), _sim_run("conv", 2500, 60000), _sim_run("expiry", 980, 19600),
+              _sim_run("version", 1200, 24000), _sim_run("defect", 1440, 21600)],
+        floors={"c08/convergence_checks": T(10000, 200000), "faults/single/kind-1": T(500, 5000),
+                "faults/single/kind-4": T(500, 5000)},
+        rule=(SIM_RULE_COMMON + "Bounded-liveness oracle: after the last disturbance (fired transport fault, defective or "
+              "overriding answer, cache data change / restart, end of outage) the run continues for refresh + expire + 10*retry + "
+              "600 virtual seconds (intervals read from the socket), is judged at the next idle point (an in-flight poll may "
+              "finish), and then the client must be ESTABLISHED with records equal to the cache's current data set (router keys "
+              "left out under version 0). Spin monitor: > 10000 transport calls without virtual time advancing or input being "
+              "consumed. Cache behaviours after the faults: v1, v0 answering in v0, v0 answering Unsupported-Version, v0 that "
+              "hangs up. Distinct by scenario trace hash."),
+        assumptions=SIM_ASSUME + ["liveness is decided only in its bounded form; the horizon is stated in the rule"],
+    )
+
+
+def c13():
+    return dict(
+        id="C13", level="exploration", engine="rtrsim",
+        builds=[_sim_build()],
+        runs=[_sim_run("version", 4000, 100000), _sim_run("defect", 1800, 21600), _sim_run("conv", 1500, 30000)],
+        floors={"c13/query_versions_checked": T(50000, 1000000), "c13/downgrade_trigger/first-pdu-v0": T(200, 4000),
+                "c13/downgrade_trigger/error-report-code-4": T(200, 4000), "c13/downgrade_trigger/closed-without-answer": T(200, 4000),
+                "c13/fast_reconnect_checks": T(200, 4000)},
+        rule=(SIM_RULE_COMMON + "Model version mv starts at 1 and is lowered only by the three triggers, applied when the client "
+              "has actually received the bytes: first complete header of a connection carries version 0 (non-error PDU); Error "
+              "Report code 4 with a lower supported version delivered (next open must happen at the same virtual second); the cache "
+              "closes the connection with nothing delivered and no session ever existed. Every query and Error Report sent must "
+              "carry mv. Any other non-error PDU with a foreign version byte {0,1,2,255} makes the reference validator mark the "
+              "response invalid with expected report code 8: the client must not go ESTABLISHED on it and its records must be "
+              "unchanged; End of Data in the other version's format likewise. Lowering after a close that followed a partial "
+              "answer or a dropped session is tolerated, not demanded. Distinct by scenario trace hash."),
+        assumptions=SIM_ASSUME,
+    )
+
+
+def c14():
+    return dict(
+        id="C14", level="exploration", engine="rtrsim",
+        builds=[_sim_build(), _sim_build("msan")],
+        runs=[_sim_run("defect", 7200, 108000), _sim_run("conv", 2500, 50000), _sim_run("version", 800, 16000),
+              _sim_run("defect", 2160, 21600, cfg="msan"), _sim_run("conv", 600, 12000, cfg="msan"),
+              _sim_run("faults", 1024, 10240, cfg="msan")],
+        floors={"wire/pdus_parsed": T(100000, 2000000), "c14/first_reports_judged": T(3000, 50000),
+                "c14/encapsulated_copies_checked": T(3000, 50000)},
+        rule=(SIM_RULE_COMMON + "Wire monitor on the concatenation of all successful send_fp chunks per connection (the mock "
+              "accepts 1-byte, 3-byte, random and full writes): the stream must frame into complete PDUs of the negotiated "
+              "version, type 1/2/10, length field == bytes sent and <= 3248; a connection may not end inside a PDU unless a write "
+              "failed. Error Reports: 16 + encapsulated + text == length; encapsulated bytes must occur verbatim in what the cache "
+              "sent on that connection; on an undisturbed connection the first report after a defective response must carry the "
+              "code of one of the PDUs the reference validator found in violation (unknown type: 0 or 5) and its encapsulated "
+              "bytes must be a byte-exact prefix of that PDU as sent; a delivered violation must draw a report; no report in "
+              "reply to an Error Report and none when the response is clean. MSan build: every byte handed to send_fp must have "
+              "clean shadow (__msan_test_shadow). Distinct by scenario trace hash / judged exchange."),
+        assumptions=SIM_ASSUME + ["MSan: libcrypto is linked but never executed in these runs"],
+    )
+
+
+def c17():
+    return dict(
+        id="C17", level="exploration", engine="rtrsim",
+        builds=[_sim_build()],
+        runs=[dict(name="ivinit", bin="rtrsim", config="asan", mode="ivinit", cases=512, chunks=16),
+              _sim_run("intervals", 4096, 200000), _sim_run("conv", 1500, 30000)],
+        floors={"c17/interval_checks": T(12000, 500000), "c17/rtr_init_calls": 512, "c17/wait_timeout_checks": T(10000, 200000),
+                "c17/polls_after_notify": T(100, 2000)},
+        rule=("ivinit: rtr_init and rtr_mgr_init over the full cross product of 8 boundary values per interval (0, min-1.., max+1, "
+              "2^32-1): rejected iff any value is out of range, *config_out NULL on rejection. intervals: one real synchronisation "
+              "per (mode x End of Data triple from the boundary cross product, then random 32-bit triples) x initial settings at "
+              "the range boundaries x v1/v0: afterwards the socket's three intervals must equal the table ignore-any -> unchanged, "
+              "accept-any -> as sent, default-min-max -> clamped, ignore-on-failure -> as sent iff inside; v0 -> unchanged "
+              "(baseline = the socket's values when the query went out). Poll timing on the wire in all conversations: while "
+              "established the receive timeout handed to the transport must be max(0, t_ok + refresh - now); a delivered Serial "
+              "Notify must be followed by the Serial Query in the same virtual second; otherwise the query goes out no later than "
+              "t_ok + refresh. Distinct by hash of the interval triple / scenario trace."),
+        assumptions=SIM_ASSUME,
+    )
+
+
+SPECS.update({"C03": c03, "C05": c05, "C07": c07, "C08": c08, "C13": c13, "C14": c14, "C17": c17})
